@@ -70,9 +70,11 @@ def run(ctx):
             if s.state0 == "NETWORK_CONN_ESTABLISHED" or e.info[1] != "LOGOUT":
                 bad = f"encode({e.info[1]})"
         elif e.site == "nin_write":
-            bad = f"next_num_in := {e.info[1]}"
+            # the peer's Logout is part of its sequence: counting and journaling it (and nothing else) is not 'acting upon' it
+            if not (s.kind == "LOGOUT" and e.info[1] == "ACCEPT" and s.state0 != "NETWORK_CONN_ESTABLISHED" and s.state in DOWN):
+                bad = f"next_num_in := {e.info[1]}"
         elif e.site == "persist":
-            if e.info[1] == "INBOUND":
+            if e.info[1] == "INBOUND" and not (s.kind == "LOGOUT" and s.state0 != "NETWORK_CONN_ESTABLISHED" and s.state in DOWN):
                 bad = "persist_msg(INBOUND)"
         elif e.site == "state_set" and e.info[1] not in DOWN:
             bad = f"state := {e.info[1]}"
@@ -200,6 +202,31 @@ def run(ctx):
             ok = re.fullmatch(r"\w+\[FTag\.SenderCompID\]", bound.get("target_comp_id", "")) and re.fullmatch(r"\w+\[FTag\.TargetCompID\]", bound.get("sender_comp_id", ""))
             ctx.instance(R3, "_validate_integrity[49 vs our target, 56 vs our sender]", bool(ok),
                          f"the inbound SenderCompID(49)/TargetCompID(56) are bound as {bound}: the peer's sender must be compared with our target and vice versa", loc(c))
+
+    # frames with a wrong BeginString are discarded by the decoder itself: exact comparison of the first field's value with the protocol's BeginString
+    from sa.cfg import CFG as _CFG
+    dec = repo.func("Codec.decode")
+    dg = _CFG(dec)
+    exact = False
+    for n in dg.nodes:
+        if n.kind != "test":
+            continue
+        for x in ast.walk(n.ast):
+            if isinstance(x, ast.Compare) and len(x.ops) == 1 and isinstance(x.ops[0], (ast.NotEq, ast.Eq)):
+                sides = [unparse(x.left), unparse(x.comparators[0])]
+                if "self.protocol.beginstring" in sides:
+                    other = sides[1 - sides.index("self.protocol.beginstring")]
+                    # the other side is the value part of the first field (tag, value = msg[0].split('=', 1))
+                    src_ok = any(isinstance(a, ast.Assign) and isinstance(a.targets[0], ast.Tuple) and len(a.targets[0].elts) == 2 and unparse(a.targets[0].elts[1]) == other
+                                 and re.fullmatch(r"\w+\[0\]\.split\('=', 1\)", unparse(a.value)) for a in walk_no_nested(dec))
+                    lab = "true" if isinstance(x.ops[0], ast.NotEq) else "false"
+                    rejects = any(dg.nodes[d].kind == "stmt" or True for d, l in dg.succs(n.id, exc=False) if l == lab)
+                    rets = [r for r in dg.nodes if r.kind == "stmt" and isinstance(r.ast, ast.Return) and dg.dominated_by(r.id, n.id, lab, exc=False)]
+                    none_ret = any(isinstance(r.ast.value, ast.Tuple) and isinstance(r.ast.value.elts[0], ast.Constant) and r.ast.value.elts[0].value is None for r in rets)
+                    exact = exact or (src_ok and none_ret)
+    ctx.instance(R3, "Codec.decode[wrong BeginString discarded]", exact,
+                 "the decoder does not reject a frame by comparing the whole value of its first field with the protocol's BeginString (a prefix / partial test lets "
+                 "'FIX.4.40' or 'FIX.4.4SP2' through): such frames are no longer discarded but answered", loc(dec))
 
     # a too-low SequenceReset-GapFill / a too-low message while a resend is awaited is tolerated (no disconnect) but must stay without effect
     for label, pred in (("too-low GapFill", lambda s: s.kind == "SEQRESET_GF" and s.ord == "LT"),
